@@ -45,6 +45,17 @@ RULE = (
     "(small-large-small, large-small-large, small-middle-small, middle-large-middle) x 3 classes x 3 menus of minima x 3 "
     "containers x 3 profiles x {same grid object, fresh grid} - the reference reads the configuration current AT EACH CALL; "
     "points lie inside all, between each pair of, and outside all minima (and on the +-1e-6 shells of each). "
+    "(g) SUBCLASS INSTANCES of the dispatched grid classes as the input grid: the library's own Grid2DIrregularUniform built "
+    "directly and through each of its factory methods (grid_from, from_grid_sparse_uniform_upscale with factors 1 and 2, "
+    "grid_2d_via_deflection_grid_from), and harness-defined trivial subclasses (class UserGrid(aa.Grid2D): pass) and "
+    "subclasses of those of Grid2D, Grid2DIrregular, Grid2DIrregularUniform and Grid1D; 3 float coordinate menus x every "
+    "prefix length 1..6 x 3 profiles (irregular), every mask with <= bound cells x geometries x {uniform, arbitrary} "
+    "coordinates (Grid2D), every 1D mask up to a length bound x geometries x {uniform, arbitrary} coordinates (Grid1D); "
+    "through every maker (to_array / to_grid / to_vector_yx) alone x every return form (single, lists of 1..3) x both "
+    "computation styles, stacked with transform (3 styles of the profile's transform), with relocate and with transform . "
+    "relocate (2 minima) x every return form, and project_grid alone / over transform: the result is the uniform / irregular "
+    "/ 1D counterpart container (a subclass of it is accepted) on the input's mask / attached to the input's coordinates, "
+    "entry k = f(coordinate k) of the subclass instance's own coordinates. "
     "non-trivial = the pairing is observable: >= 2 evaluated coordinates "
     "and (for masked inputs) at least one masked pixel; for ring cases at least one moved and one unchanged point"
 )
@@ -73,6 +84,13 @@ ASSUMPTIONS = [
     "configuration histories change the in-memory configuration (conf.instance['grids']['radial_minimum']['radial_minimum']"
     "[<class name>] = value, restored in a finally block); the radial minimum in force is the one configured when the decorated "
     "function is called. Pushing a whole new configuration directory is not exercised",
+    "subclass inputs: an instance of a subclass of Grid2D / Grid2DIrregular / Grid1D is 'a masked uniform grid' / 'an irregular "
+    "grid' / 'a 1D grid' of the statement (the library documents Grid2DIrregularUniform as an irregular set of coordinates that "
+    "remembers the uniform grid it came from). The statement fixes the KIND of the result container, so a subclass of Array2D / "
+    "Grid2D / VectorYX2D / ArrayIrregular / ... is accepted there; that extra attributes of the input subclass (shape_native, "
+    "pixel_scales of Grid2DIrregularUniform) travel to the result is not required. What the factory methods put INTO the grid is "
+    "not C17's business: the coordinates of the instance as the caller sees them (np.array(grid)) are the input. Subclasses that "
+    "override methods or __array_finalize__ of the grid classes are not exercised",
 ]
 BOUNDS = {
     "quick": "2D masks with <= 9 cells (3187 masks, all shapes incl. 1xN/Nx1) x 6 geometries x 2 coordinate kinds; "
@@ -81,11 +99,15 @@ BOUNDS = {
     "x 2 orders x 3 containers; derived-after-evaluated histories of depth 2 (evaluate parent, derive, evaluate) in every "
     "grid case; keyword forms 3 x (3 point sets of 6 as ndarray and Grid2DIrregular, 3 masks x 2 coordinate kinds, 3 1D masks "
     "x 2 kinds) x 2 profiles x 3 transform styles; configuration histories of 3 calls (4 sequences) x 3 classes x 3 menus x 3 "
-    "containers x 3 profiles x 4 stacks x {same, fresh} grid, 80 points each",
+    "containers x 3 profiles x 4 stacks x {same, fresh} grid, 80 points each; subclass inputs: 8 irregular kinds "
+    "(Grid2DIrregularUniform direct + 4 factory forms, 3 user subclasses) x 3 menus x lengths 1..6 x 3 profiles, 2 user "
+    "subclasses of Grid2D x 2D masks with <= 4 cells (66) x 3 geometries x 2 coordinate kinds, 2 user subclasses of Grid1D x "
+    "1D masks of length <= 5 (57) x 3 geometries x 2 kinds",
     "thorough": "2D masks with <= 12 cells (35943 masks) x 6 geometries x 2 coordinate kinds; irregular as quick; "
     "1D masks of length <= 9 x 6 geometries x 2 kinds; rings as quick plus a 4th (16-direction) set; keyword forms on 3 menus "
     "x every prefix length 1..6 (18 sets), 6 masks x 2 geometries, 5 1D masks x 2 geometries; configuration histories = every "
-    "non-constant sequence of 3 and 4 calls over the 3 minima (102 sequences)",
+    "non-constant sequence of 3 and 4 calls over the 3 minima (102 sequences); subclass inputs: irregular kinds as quick, "
+    "Grid2D subclasses on 2D masks with <= 6 cells (380) x 6 geometries, Grid1D subclasses on 1D masks of length <= 7 x 6 geometries",
 }
 
 RMIN = {"VerifC17ProfTiny": 1.0e-8, "VerifC17ProfMid": 0.3, "VerifC17ProfBig": 2.5}
@@ -312,6 +334,14 @@ def kit():
     method("T", "s", "np")  # target of the nested program
     k = Kit()
     k.aa = aa
+    # (g) what a downstream project writes: trivial subclasses (and subclasses of those) of the dispatched grid classes
+    sub = {}
+    for name, base in (("UserGrid2D", aa.Grid2D), ("UserIrr", aa.Grid2DIrregular), ("UserGrid1D", aa.Grid1D),
+                       ("UserIU", aa.Grid2DIrregularUniform)):
+        sub[name] = type("VerifC17" + name, (base,), {})
+    for name in ("UserGrid2D", "UserIrr", "UserGrid1D"):
+        sub[name + "2"] = type("VerifC17" + name + "2", (sub[name],), {})
+    k.sub = sub
     k.classes = classes
     k.method = method
     _KIT = k
@@ -382,9 +412,15 @@ def f_seen(obj):
 # ----------------------------------------------------------------------------- container checks
 
 
-def check_container(v, aa, fid, desc, out, ref, want_type, extra, tol):
+def type_ok(out, want_type, loose=False):
+    """Exact container type; `loose` (inputs that are instances of SUBCLASSES of the dispatched grid classes, for which the
+    statement only fixes 'the irregular / uniform / 1D counterpart') also accepts a subclass of the expected container."""
+    return isinstance(out, want_type) if loose else type(out) is want_type
+
+
+def check_container(v, aa, fid, desc, out, ref, want_type, extra, tol, loose=False):
     """One element: exact type, values entry-by-entry (slim order) and the type-specific `extra` predicate."""
-    if type(out) is not want_type:
+    if not type_ok(out, want_type, loose):
         v.ok(False, fid, lambda: "%s: returned %s, expected %s" % (desc, type(out).__name__, want_type.__name__))
         return
     got = arr(out.slim) if hasattr(out, "slim") else arr(out)
@@ -395,14 +431,14 @@ def check_container(v, aa, fid, desc, out, ref, want_type, extra, tol):
         v.ok(msg is None, fid, lambda: "%s: %s" % (desc, msg))
 
 
-def check_result(v, aa, dname, itype, prog, desc, out, ref, want_type, extra, tol):
+def check_result(v, aa, dname, itype, prog, desc, out, ref, want_type, extra, tol, loose=False):
     kind, idxs, is_list = PROGS[prog]
     if not is_list:
         fid = "%s:%s" % (dname, itype)
         if isinstance(out, list):
             v.ok(False, fid, "%s: non-list result returned as list" % desc)
             return
-        check_container(v, aa, fid, desc, out, ref, want_type, extra, tol)
+        check_container(v, aa, fid, desc, out, ref, want_type, extra, tol, loose)
         return
     fid = "list-wrapping:%s" % dname
     if not isinstance(out, list) or len(out) != len(idxs):
@@ -415,7 +451,7 @@ def check_result(v, aa, dname, itype, prog, desc, out, ref, want_type, extra, to
         return
     v.ok(True, fid)
     for j, (o, r) in enumerate(zip(out, ref)):
-        check_container(v, aa, fid, "%s[element %d]" % (desc, j), o, r, want_type, extra, tol)
+        check_container(v, aa, fid, "%s[element %d]" % (desc, j), o, r, want_type, extra, tol, loose)
 
 
 def check_seen_once(v, fid, desc, obj, C, tol, want_kwargs=None):
@@ -517,6 +553,21 @@ def cases(tier, seed):
             for hist in cfg_histories(quick):
                 for pi in range(nprof):
                     yield ["cfg", ci, cont, hist, pi, seed]
+    # (g) inputs that are instances of SUBCLASSES of the dispatched grid classes
+    for variant in SUB_IRR:
+        for menu in range(3):
+            for n in range(1, 7):
+                for pi in range(nprof):
+                    yield ["sub", "irr", variant, menu, n, pi, seed]
+    for variant in SUB_1D:
+        for L in range(1, (5 if quick else 7) + 1):
+            for bits in range(2 ** L - 1):
+                for gi in ((1, 2, 5) if quick else range(6)):
+                    yield ["sub", "g1d", variant, L, bits, gi, seed]
+    for variant in SUB_2D:
+        for (h, w, bits) in dom.all_mask_cases(4 if quick else 6):
+            for gi in ((1, 2, 5) if quick else range(6)):
+                yield ["sub", "g2d", variant, h, w, bits, gi, seed]
     # (a) masked uniform grids
     for (h, w, bits) in dom.all_mask_cases(9 if quick else 12):
         for gi in range(6):
@@ -541,6 +592,8 @@ def run_case(case):
         run_kw(k, v, *case[1:])
     elif kind == "cfg":
         run_cfg(k, v, *case[1:])
+    elif kind == "sub":
+        {"irr": run_sub_irr, "g2d": run_sub_g2d, "g1d": run_sub_g1d}[case[1]](k, v, *case[2:])
     else:
         raise ValueError("unknown case kind %r" % (kind,))
     return v.result()
@@ -559,7 +612,7 @@ def mk_prof(k, cls, prof, tstyle="nd"):
 # ---------------------------------------------------------------- the three basic makers on one input grid
 
 
-def run_makers(k, v, itype, grid, C_eval, mk_extra, types, desc0, tol, vector=True):
+def run_makers(k, v, itype, grid, C_eval, mk_extra, types, desc0, tol, vector=True, loose=False):
     """to_array / to_grid / to_vector_yx on `grid`; C_eval = coordinates the function must be evaluated at."""
     aa = k.aa
     obj = mk_prof(k, "VerifC17ProfMid", ((0.0, 0.0), 0.0))
@@ -573,7 +626,7 @@ def run_makers(k, v, itype, grid, C_eval, mk_extra, types, desc0, tol, vector=Tr
                 out = call(obj, stack, prog, style, grid)
                 check_seen_once(v, "%s:%s" % (dname, itype), desc, obj, C_eval, tol, {})
                 # the native-form (scatter) check does not depend on how the function computed its values
-                check_result(v, aa, dname, itype, prog, desc, out, prog_ref(prog, C_eval), want, mk_extra(dname, style == "np"), tol)
+                check_result(v, aa, dname, itype, prog, desc, out, prog_ref(prog, C_eval), want, mk_extra(dname, style == "np"), tol, loose)
 
 
 DERIVED = ":derived-after-parent-evaluated"
@@ -764,14 +817,14 @@ def check_nested(v, desc, obj, out, C, TC, tol):
     v.ok(near(arr(out), prog_ref("s", TC), 2e-9 * scale_of(TC)), fid, "%s: nested result differs from f(T(grid))" % desc)
 
 
-def check_stack_output(v, aa, dname, itype, prog, desc, out, exp, chk, want, extra):
+def check_stack_output(v, aa, dname, itype, prog, desc, out, exp, chk, want, extra, loose=False, fid=None, ref=None):
     """Output of <maker>.transform.relocate: entry k = prog(relocated coordinate k) for all non-centre entries."""
-    fid = "%s:%s" % (dname, itype)
-    if type(out) is not want:
+    fid = fid or "%s:%s" % (dname, itype)
+    if not type_ok(out, want, loose):
         v.ok(False, fid, "%s: returned %s expected %s" % (desc, type(out).__name__, want.__name__))
         return
     got = arr(out.slim) if hasattr(out, "slim") else arr(out)
-    ref = prog_ref(prog, exp)
+    ref = prog_ref(prog, exp) if ref is None else ref
     if got.shape != ref.shape:
         v.ok(False, fid, "%s: result shape %s expected %s" % (desc, got.shape, ref.shape))
         return
@@ -798,10 +851,9 @@ def prof_centre_angle(prof):
     return c, A
 
 
-def run_project_2d(k, v, grid, m, ps, origin, profs, desc0):
+def run_project_2d(k, v, grid, m, ps, origin, profs, desc0, fid="project_grid:Grid2D", loose=False):
     aa = k.aa
     h, w = m.shape
-    fid = "project_grid:Grid2D"
     xmin, xmax = origin[1] - w * ps[1] / 2.0, origin[1] + w * ps[1] / 2.0
     ymin, ymax = origin[0] - h * ps[0] / 2.0, origin[0] + h * ps[0] / 2.0
     for prof in profs:
@@ -835,7 +887,7 @@ def run_project_2d(k, v, grid, m, ps, origin, profs, desc0):
              % (desc, got.tolist(), (cy, cx), A, sorted(cands)))
         if hit is None:
             continue
-        ok = type(out) is aa.Array1D and near(arr(out), prog_ref("s", got), 0.0)
+        ok = type_ok(out, aa.Array1D, loose) and near(arr(out), prog_ref("s", got), 0.0)
         v.ok(ok, fid, lambda: "%s: result %s %s is not the Array1D of f along the projected line" % (desc, type(out).__name__, arr(out).tolist()))
 
 
@@ -1542,3 +1594,287 @@ def run_cfg(k, v, ci, cont, hist, pi, seed):
         radial_section()[cls] = saved
     v.nontrivial = differed >= 1 and moved >= 1 and unmoved >= 1
     v.outcome = "cfg:%s:%s:%s" % (cls, cont, "changed" if differed else "constant")
+
+
+# ---------------------------------------------------------------- (g) instances of SUBCLASSES of the dispatched grid classes
+
+# The statement is about "a masked uniform grid", "an irregular grid", "a 1D grid": an instance of a subclass of Grid2D /
+# Grid2DIrregular / Grid1D IS such a grid (the library itself hands out Grid2DIrregularUniform, a subclass of
+# Grid2DIrregular, from three factory methods; downstream projects subclass the grids). The result must be the uniform /
+# irregular / 1D counterpart container (a subclass of it is accepted), on the input's mask / coordinates, entry k =
+# f(coordinate k), for every maker alone and stacked with transform / relocate / project_grid and every return form.
+SUB = ":subclass"
+SUB_IRR = ("IU", "IU.grid_from", "IU.upscale1", "IU.upscale2", "IU.deflection", "UserIU", "UserIrr", "UserIrr2")
+SUB_2D = ("UserGrid2D", "UserGrid2D2")
+SUB_1D = ("UserGrid1D", "UserGrid1D2")
+IU_SHAPE, IU_PS = (5, 7), (1.0, 0.5)
+MAKER_NAME = {"A": "to_array", "G": "to_grid", "V": "to_vector_yx", "T": "transform", "R": "relocate", "P": "project_grid"}
+
+
+def stack_name(stack):
+    return ".".join(MAKER_NAME[c] for c in stack)
+
+
+def sub_irr_grid(k, variant, pts, seed):
+    """(grid, built directly from `pts`?) - the library's Grid2DIrregularUniform, built directly and through each of its
+    factory methods, and user subclasses of Grid2DIrregular / Grid2DIrregularUniform."""
+    aa = k.aa
+    IU = aa.Grid2DIrregularUniform
+    if variant == "IU":
+        return IU(values=pts.copy(), shape_native=IU_SHAPE, pixel_scales=IU_PS), True
+    if variant == "UserIU":
+        return k.sub["UserIU"](values=pts.copy(), shape_native=IU_SHAPE, pixel_scales=IU_PS), True
+    if variant in ("UserIrr", "UserIrr2"):
+        return k.sub[variant](values=pts.copy()), True
+    if variant == "IU.grid_from":
+        parent = IU(values=irregular_menu(seed, 2)[:2].copy(), shape_native=IU_SHAPE, pixel_scales=IU_PS)
+        return parent.grid_from(pts.copy()), True
+    if variant in ("IU.upscale1", "IU.upscale2"):
+        # every sparse coordinate becomes upscale_factor**2 coordinates; the grid's own coordinates are what the caller sees
+        sparse = pts[: max(1, (len(pts) + 1) // 2)] if variant.endswith("2") else pts
+        return IU.from_grid_sparse_uniform_upscale(grid_sparse_uniform=sparse.copy(), upscale_factor=int(variant[-1]), pixel_scales=IU_PS), False
+    if variant == "IU.deflection":
+        d = np.round(dom.rng(seed, "c17-sub-defl").uniform(-1.0, 1.0, pts.shape), 3)
+        parent = IU(values=pts + d, shape_native=IU_SHAPE, pixel_scales=IU_PS)
+        return parent.grid_2d_via_deflection_grid_from(deflection_grid=d), False
+    raise ValueError(variant)
+
+
+def check_stack_result(v, aa, dname, itype, prog, desc, out, exp, chk, want, extra, loose):
+    """Output of <maker> . [transform .] relocate for every return form: single results and lists element by element."""
+    kind, idxs, is_list = PROGS[prog]
+    if not is_list:
+        if isinstance(out, list):
+            v.ok(False, "%s:%s" % (dname, itype), "%s: non-list result returned as list" % desc)
+            return
+        check_stack_output(v, aa, dname, itype, prog, desc, out, exp, chk, want, extra, loose)
+        return
+    fid = "list-wrapping:%s" % dname
+    if not isinstance(out, list) or len(out) != len(idxs):
+        v.ok(False, fid, lambda: "%s: list of %d results returned as %s%s"
+             % (desc, len(idxs), type(out).__name__, (" of length %d" % len(out)) if isinstance(out, list) else ""))
+        return
+    v.ok(True, fid)
+    for j, (o, r) in enumerate(zip(out, prog_ref(prog, exp))):
+        check_stack_output(v, aa, dname, itype, prog, "%s[element %d]" % (desc, j), o, exp, chk, want, extra, loose, fid=fid, ref=r)
+
+
+def sub_makers(types, vector=True):
+    plan = [("A", "to_array", S_PROGS, types[0]), ("G", "to_grid", P_PROGS, types[1])]
+    if vector:
+        plan.append(("V", "to_vector_yx", P_PROGS, types[2]))
+    return plan
+
+
+def run_sub_stacks(k, v, itype, grid, C, prof, types, mk_extra, desc0):
+    """Every maker stacked with transform, with relocate and with transform . relocate, every return form, on a grid whose
+    coordinates (as the caller sees them) are C."""
+    aa = k.aa
+    centre, angle = prof
+    TC = t_ref(C, centre, angle)
+    sc = scale_of(C)
+    makers = sub_makers(types)
+    moved = 0
+    for tstyle in ("nd", "wna", "tg"):
+        obj = mk_prof(k, "VerifC17ProfMid", prof, tstyle)
+        for mk_, dname, progs, want in makers:
+            for prog in progs:
+                desc = "%s %s.transform(%s) prof=%s tstyle=%s" % (desc0, dname, prog, prof, tstyle)
+                out = call(obj, mk_ + "T", prog, "np", grid)
+                if check_transform_seen(v, itype, desc, obj, C, TC, 1e-12 * sc):
+                    check_result(v, aa, dname, itype, prog, desc, out, prog_ref(prog, TC), want, mk_extra(dname), 2e-9 * scale_of(TC), loose=True)
+    for cls in ("VerifC17ProfMid", "VerifC17ProfBig"):
+        rmin = RMIN[cls]
+        obj = mk_prof(k, cls, prof, "wna")
+        for mk_, dname, progs, want in makers:
+            for stack, F in ((mk_ + "R", C), (mk_ + "TR", TC)):
+                for prog in progs:
+                    desc = "%s %s(%s, %s) prof=%s" % (desc0, stack_name(stack), prog, cls, prof)
+                    out = call(obj, stack, prog, "np", grid)
+                    fs = f_seen(obj)
+                    res = check_reloc(v, desc, fs[0][1] if len(fs) == 1 else None, F, rmin, SUB)
+                    if res is not None:
+                        moved += int(((res[0] != F).any(axis=1) & res[1]).sum())
+                        check_stack_result(v, aa, dname, itype, prog, desc, out, res[0], res[1], want, mk_extra(dname), True)
+    return moved
+
+
+def extras_irr_sub(aa, n, C):
+    def mk_extra(dname, full=True):
+        def extra(out):
+            if len(out) != n:
+                return "result has %d entries for %d coordinates" % (len(out), n)
+            if dname == "to_vector_yx" and not (isinstance(out.grid, aa.Grid2DIrregular) and dom.exact(arr(out.grid), C)):
+                return "vector field is not attached to the input coordinates"
+            return None
+
+        return extra
+
+    return mk_extra
+
+
+def extras_g2d_sub(aa, m, ps, origin, C):
+    def mk_extra(dname, full=True):
+        def extra(out):
+            if not same_mask2d(out.mask, m, ps, origin):
+                return "result is not on the input mask: %s ps=%s origin=%s" % (np.array(out.mask).tolist(), out.mask.pixel_scales, out.mask.origin)
+            if full and not dom.exact(arr(out.native), scatter2d(m, arr(out.slim))):
+                return "native form is not the scatter of the slim entries onto the unmasked pixels: %s" % arr(out.native).tolist()
+            if dname == "to_vector_yx" and not (isinstance(out.grid, aa.Grid2D) and dom.exact(arr(out.grid), C)):
+                return "vector field is not attached to the input grid"
+            return None
+
+        return extra
+
+    return mk_extra
+
+
+def run_sub_irr(k, v, variant, menu, n, pi, seed):
+    aa = k.aa
+    pts = irregular_menu(seed, menu)[:n].astype(float)
+    profs = profiles(seed)
+    prof = profs[pi]
+    grid, direct = sub_irr_grid(k, variant, pts, seed)
+    base = aa.Grid2DIrregular
+    itype = "Grid2DIrregular" + SUB
+    if not (isinstance(grid, base) and type(grid) is not base and arr(grid).ndim == 2 and arr(grid).shape[1] == 2 and len(grid) >= 1):
+        # what the constructors / factories hand out is not C17's business: only genuine subclass instances are inputs here
+        v.ok(not direct, "input-grid:" + itype, "%s built from %s is %s %s" % (variant, pts.tolist(), type(grid).__name__, arr(grid).tolist()))
+        v.outcome = "sub:irr:%s:not-a-subclass-instance" % variant
+        return
+    C = arr(grid)  # coordinate k of the input, as the caller sees it
+    nn = len(C)
+    desc0 = "%s[%s menu %d n=%d: %s]" % (type(grid).__name__, variant, menu, n, C.tolist())
+    if direct:
+        v.ok(dom.exact(C, pts), "input-grid:" + itype, "%s does not hold its coordinates %s" % (desc0, pts.tolist()))
+    v.nontrivial = nn >= 2
+    types = (aa.ArrayIrregular, aa.Grid2DIrregular, aa.VectorYX2DIrregular)
+    mk_extra = extras_irr_sub(aa, nn, C)
+    # every maker alone, every return form (exact: no arithmetic between the function and the container)
+    run_makers(k, v, itype, grid, C, mk_extra, types, desc0, 0.0, loose=True)
+    # project_grid alone and over transform: an irregular grid is evaluated as it is (one entry per coordinate)
+    for pr in (prof, profs[3], profs[4]):
+        obj = mk_prof(k, "VerifC17ProfMid", pr)
+        for prog, want in (("s", aa.ArrayIrregular), ("p", aa.Grid2DIrregular)):
+            desc = "%s project_grid(%s) prof=%s" % (desc0, prog, pr)
+            out = call(obj, "P", prog, "np", grid)
+            check_seen_once(v, "project_grid:" + itype, desc, obj, C, 0.0)
+            check_container(v, aa, "project_grid:" + itype, desc, out, prog_ref(prog, C), want, mk_extra("project_grid"), 0.0, loose=True)
+    TC = t_ref(C, prof[0], prof[1])
+    obj = mk_prof(k, "VerifC17ProfMid", prof, "wna")
+    for prog, want in (("s", aa.ArrayIrregular), ("p", aa.Grid2DIrregular)):
+        desc = "%s project_grid.transform(%s) prof=%s" % (desc0, prog, prof)
+        out = call(obj, "PT", prog, "np", grid)
+        if check_transform_seen(v, itype, desc, obj, C, TC, 1e-12 * scale_of(C)):
+            check_container(v, aa, "project_grid:" + itype, desc, out, prog_ref(prog, TC), want, mk_extra("project_grid"), 2e-9 * scale_of(TC), loose=True)
+    moved = run_sub_stacks(k, v, itype, grid, C, prof, types, mk_extra, desc0)
+    v.ok(dom.exact(arr(grid), C), "input-grid:" + itype, "%s: caller's grid was modified" % desc0)
+    v.outcome = "sub:irr:%s:n%d:moved%s" % (variant, min(nn, 3), "0" if moved == 0 else "+")
+
+
+def run_sub_g2d(k, v, variant, h, w, bits, gi, seed):
+    aa = k.aa
+    gcls = k.sub[variant]
+    m = dom.mask_from_bits(h, w, bits)
+    ps, origin = geoms2d(seed)[gi]
+    mask = aa.Mask2D(mask=m.copy(), pixel_scales=ps, origin=origin)
+    n = int((~m).sum())
+    v.nontrivial = n >= 2 and bool(m.any())
+    profs = profiles(seed)
+    itype = "Grid2D" + SUB
+    C_uni = arr(aa.Grid2D.from_mask(mask=mask))
+    C_cus = C_uni + dom.rng(seed, "c17-subjit", h, w, bits, gi).uniform(-0.4, 0.4, (n, 2)) * np.array(ps)
+    types = (aa.Array2D, aa.Grid2D, aa.VectorYX2D)
+    moved = 0
+    for q, (vname, C0) in enumerate((("uniform", C_uni), ("custom", C_cus))):
+        grid = gcls(values=C0.copy(), mask=mask)
+        desc0 = "%s[%s %dx%d bits=%d ps=%s origin=%s]" % (gcls.__name__, vname, h, w, bits, ps, origin)
+        if not (type(grid) is gcls and dom.exact(arr(grid), C0)):
+            v.ok(False, "input-grid:" + itype, "%s is %s %s" % (desc0, type(grid).__name__, arr(grid).tolist()))
+            continue
+        C = arr(grid)
+        mk_extra = extras_g2d_sub(aa, m, ps, origin, C)
+        run_makers(k, v, itype, grid, C, mk_extra, types, desc0, 0.0, loose=True)
+        moved += run_sub_stacks(k, v, itype, grid, C, profs[1 + (bits + gi + q) % 2], types, mk_extra, desc0)
+        if vname == "uniform":
+            # project_grid depends on the geometry of the mask only
+            run_project_2d(k, v, grid, m, ps, origin, profs, desc0, fid="project_grid:" + itype, loose=True)
+        v.ok(dom.exact(arr(grid), C), "input-grid:" + itype, "%s: caller's grid was modified" % desc0)
+    v.outcome = "sub:g2d:%s:n%d:moved%s" % (variant, min(n, 4), "0" if moved == 0 else "+")
+
+
+def run_sub_g1d(k, v, variant, L, bits, gi, seed):
+    aa = k.aa
+    gcls = k.sub[variant]
+    m = dom.mask_from_bits(1, L, bits)[0]
+    ps, origin = geoms1d(seed)[gi]
+    mask = aa.Mask1D(mask=m.copy(), pixel_scales=(ps,), origin=(origin,))
+    n = int((~m).sum())
+    profs = profiles(seed)
+    itype = "Grid1D" + SUB
+    v.nontrivial = n >= 2 and bool(m.any())
+    v.outcome = "sub:g1d:%s:n%d:%s" % (variant, min(n, 3), "masked" if m.any() else "full")
+    xs = np.round(dom.rng(seed, "c17-sub1d", L, bits, gi).uniform(-3.0, 3.0, n), 4)
+    if n >= 3:
+        xs[2] = xs[0]  # a repeated coordinate
+    mk_extra = extras_g1d(m, ps, origin)
+    types = (aa.Array1D, aa.Grid2D, None)
+    makers = sub_makers(types, vector=False)  # to_vector_yx on 1D grids is documented as unsupported
+    for vname, X0 in (("uniform", arr(aa.Grid1D.from_mask(mask=mask).slim)), ("custom", xs)):
+        grid = gcls(values=X0.copy(), mask=mask)
+        desc0 = "%s[%s L=%d bits=%d ps=%s origin=%s x=%s]" % (gcls.__name__, vname, L, bits, ps, origin, X0.tolist())
+        if not (type(grid) is gcls and dom.exact(arr(grid.slim), X0)):
+            v.ok(False, "input-grid:" + itype, "%s is %s %s" % (desc0, type(grid).__name__, arr(grid).tolist()))
+            continue
+        X = arr(grid.slim)
+        sc = scale_of(X)
+        ctol = 1e-12 * sc
+        P0 = np.stack([np.zeros(n), X], -1)  # the documented projection at angle 0: (0, x_k)
+        run_makers(k, v, itype, grid, P0, mk_extra, types, desc0, 2e-9 * sc, vector=False, loose=True)
+        obj = mk_prof(k, "VerifC17ProfMid", profs[0])
+        call(obj, "A", "s", "np", grid)
+        check_seen_once(v, "to_array:" + itype, desc0 + " to_array projected line", obj, P0, ctol)
+        # project_grid: line rotated clockwise by (angle + 90) about the origin
+        for prof in profs:
+            _, A = prof_centre_angle(prof)
+            obj = mk_prof(k, "VerifC17ProfMid", prof)
+            ey, ex = rot_cw(np.zeros(n), X, A)
+            desc = "%s project_grid prof=%s" % (desc0, prof)
+            out = call(obj, "P", "s", "np", grid)
+            got = check_seen_once(v, "project_grid:" + itype, desc, obj, np.stack([ey, ex], -1), ctol)
+            if got is not None:
+                ok = type_ok(out, aa.Array1D, True) and near(arr(out), prog_ref("s", got), 0.0)
+                v.ok(ok, "project_grid:" + itype, lambda: "%s: result %s %s is not the Array1D of f along the projected line" % (desc, type(out).__name__, arr(out).tolist()))
+        # transform / relocation under the makers: evaluated on T(projected line), every return form
+        for pi in (1, 2):
+            prof = profs[pi]
+            TC = t_ref(P0, prof[0], prof[1])
+            for tstyle in ("nd", "tg"):
+                obj = mk_prof(k, "VerifC17ProfMid", prof, tstyle)
+                for mk_, dname, progs, want in makers:
+                    for prog in progs:
+                        desc = "%s %s.transform(%s) prof=%s tstyle=%s" % (desc0, dname, prog, prof, tstyle)
+                        out = call(obj, mk_ + "T", prog, "np", grid)
+                        if check_transform_seen(v, itype, desc, obj, P0, TC, ctol):
+                            check_result(v, aa, dname, itype, prog, desc, out, prog_ref(prog, TC), want, mk_extra(dname), 2e-9 * scale_of(TC), loose=True)
+        for cls in ("VerifC17ProfMid", "VerifC17ProfBig"):
+            rmin = RMIN[cls]
+            for pi in (0, 1):
+                prof = profs[pi]
+                obj = mk_prof(k, cls, prof, "wna")
+                for mk_, dname, progs, want in makers:
+                    for prog in progs:
+                        desc = "%s %s.transform.relocate(%s, %s) prof=%s" % (desc0, dname, prog, cls, prof)
+                        out = call(obj, mk_ + "TR", prog, "np", grid)
+                        fs = f_seen(obj)
+                        if len(fs) != 1:
+                            v.ok(False, "relocate_to_radial_minimum:moved" + SUB, "%s: function called %d times" % (desc, len(fs)))
+                            continue
+                        ts = [s_ for s_ in obj.seen if s_[0] == "T"]
+                        # the relocation acts on the grid `transform` produced (taken from the trace: it carries the ~1e-16
+                        # rounding of the projection, which matters next to r == 0)
+                        TC = t_ref(ts[0][1], prof[0], prof[1]) if len(ts) == 1 else t_ref(P0, prof[0], prof[1])
+                        res = check_reloc(v, desc, fs[0][1], TC, rmin, SUB)
+                        if res is not None:
+                            check_stack_result(v, aa, dname, itype, prog, desc, out, res[0], res[1], want, mk_extra(dname), True)
+        v.ok(dom.exact(arr(grid.slim), X), "input-grid:" + itype, "%s: caller's grid was modified" % desc0)
